@@ -201,7 +201,8 @@ func c08Check(c C08Case, rec *Recorder) *Disc {
 		suite = append(suite, Suite(*c.Prior)...)
 	}
 	suite = append(suite, Suite(rep)...)
-	before := SuiteSig(m.Wrap, suite)
+	wrap := oneWrap(m.Wrap) // one wrapped handler across the rejected call
+	before := SuiteSig(wrap, suite)
 	cfgBefore := cfgJSON(m.Config())
 	inv := c.Invalid.Cors()
 	err := m.Reconfigure(&inv)
@@ -209,7 +210,7 @@ func c08Check(c C08Case, rec *Recorder) *Disc {
 	if err == nil {
 		return discf("Reconfigure accepted the invalid configuration %+v", c.Invalid)
 	}
-	after := SuiteSig(m.Wrap, suite)
+	after := SuiteSig(wrap, suite)
 	if i := firstDiff(before, after); i >= 0 {
 		return discf("prior %+v debug=%v: after the rejected Reconfigure(%+v), {%s} is answered %s instead of %s", c.Prior, c.Debug, c.Invalid, suite[i].Brief(), abbrev(after[i], 400), abbrev(before[i], 400))
 	}
